@@ -211,7 +211,7 @@ contract(
     invariants={0: _loop0_inv, 1: _loop1_inv, 2: _loop2_inv},
     ensures=_post,
     crash=lambda c: closed(objs(c.h, c.dest)),
-    props=["C04", "C11"],
+    props=["C04", "C11", "C18", "C12", "C15"],
     doc="C04: Closed(dest) after every mutating call and at return; C11: truthful failed set",
 )
 
